@@ -4,7 +4,7 @@ from . import common, e2
 
 COMPS = ["inv_nodes_b", "inv_local_b", "inv_reach_b", "inv_rows_b", "inv_deps_b", "inv_acyclic_b",
          "inv_undeclared_b", "inv_fhash_b", "inv_step_b", "inv_running_nohash_b", "inv_succeeded_b",
-         "inv_nocreator_b"]
+         "inv_nocreator_b", "inv_outedge_b", "inv_succ_products_b"]
 
 
 def main():
@@ -24,7 +24,7 @@ def main():
         for c in COMPS:
             checks.append(f"all_prefixes_ok {c} (init_st 3) {ops}")
             names.append((i, c))
-    bad = common.run_cases(ctx, "inv", header, checks, chunk=22)
+    bad = common.run_cases(ctx, "inv", header, checks, chunk=28)
     from collections import Counter
     print(Counter(names[b][1] for b in bad))
     print([names[b] for b in bad][:20])
